@@ -215,7 +215,8 @@ def pair_failure(a, b, sa, sb):
 
 # {{{ two different classes with one name (a class factory called twice, two modules)
 
-SAME_NAME_KINDS = ("legacy", "decorated", "legacy-sub-variable", "undecorated-sub-sum")
+SAME_NAME_KINDS = ("legacy", "decorated", "legacy-sub-variable", "undecorated-sub-sum",
+                   "field-compare-false", "field-hash-false", "field-repr-false", "field-kw-only")
 
 
 def _class_factory(kind):
@@ -251,12 +252,54 @@ def _class_factory(kind):
     return Twin
 
 
+def fieldflag_failure(kind):
+    """A user node whose extra field is declared with a dataclasses.field() flag (compare=False,
+    hash=False, repr=False, kw_only=True): it is a field all the same -- two nodes that differ in
+    it are different nodes, two that agree are equal and hash alike."""
+    import dataclasses
+    import warnings
+
+    import pymbolic.primitives as p
+    flag = {"field-compare-false": dict(compare=False), "field-hash-false": dict(hash=False),
+            "field-repr-false": dict(repr=False), "field-kw-only": dict(kw_only=True)}[kind]
+    with warnings.catch_warnings():
+        warnings.simplefilter("ignore")
+
+        @p.expr_dataclass()
+        class Flagged(p.Variable):
+            tag: object = dataclasses.field(default=None, **flag)
+
+        def mk(t):
+            return Flagged("x", tag=t) if kind == "field-kw-only" else Flagged("x", t)
+        for t1, t2 in ((1, 2), (-1, -2), ("a", "b"), (None, 0)):
+            a, a2, b = mk(t1), mk(t1), mk(t2)
+            for x, y, want in ((a, a2, True), (a, b, False), (b, a, False),
+                               (p.Sum((a, 1)), p.Sum((b, 1)), False)):
+                try:
+                    got = x == y
+                    if got != want or (x != y) == got:
+                        return ("eq-wrong", f"{kind}: tags {t1!r} / {t2!r}: {x!r} == {y!r} gives "
+                                f"{got}")
+                    if want and hash(x) != hash(y):
+                        return ("hash-differs", f"{kind}: equal nodes hash apart")
+                    if not want and len({x, y}) != 2:
+                        return ("dict-lookup", f"{kind}: nodes differing in the flagged field "
+                                "collapse into one set element")
+                except RecursionError:
+                    raise
+                except Exception as e:  # noqa: BLE001
+                    return (f"eq-raises:{type(e).__name__}", f"{kind}: {e!r}")
+    return None
+
+
 def samename_failure(kind):
     """Two classes made by calling one factory twice: same __name__, same fields, different
     classes.  Instances are never equal across them, alone or inside built-in nodes."""
     import warnings
 
     import pymbolic.primitives as p
+    if kind.startswith("field-"):
+        return fieldflag_failure(kind)
     with warnings.catch_warnings():
         warnings.simplefilter("ignore")
         ca, cb = _class_factory(kind), _class_factory(kind)
